@@ -427,6 +427,17 @@ fn strip(s: &str) -> String {
     anstream::adapter::strip_str(s).to_string()
 }
 
+/// A call's contiguous blocks: (is_stderr, acceptable renderings).  A lock-held group is two
+/// calls, hence two blocks - the property is about single calls, not about `lock()` scopes.
+fn expected_all(sc: &Scenario, call: &Call) -> Vec<(bool, Vec<Vec<u8>>)> {
+    if matches!(call.kind, Kind::LockedOutGroup | Kind::LockedErrGroup) {
+        let err = call.kind == Kind::LockedErrGroup;
+        let mk = |frags: &[String]| Call { kind: if err { Kind::Eprint } else { Kind::Print }, frags: frags.to_vec() };
+        return [mk(&call.frags[..2]), mk(&call.frags[2..])].iter().filter_map(|c| expected(sc, c)).collect();
+    }
+    expected(sc, call).into_iter().collect()
+}
+
 /// (is_stderr, acceptable renderings of the record)
 fn expected(sc: &Scenario, call: &Call) -> Option<(bool, Vec<Vec<u8>>)> {
     let raw = call.frags.concat();
@@ -453,7 +464,7 @@ fn check_stream(sc: &Scenario, is_err: bool, data: &[u8]) -> Result<u64, String>
     let per_thread: Vec<Vec<Vec<Vec<u8>>>> = sc
         .threads
         .iter()
-        .map(|calls| calls.iter().filter_map(|c| expected(sc, c)).filter(|(e, _)| *e == is_err).map(|(_, f)| f).collect())
+        .map(|calls| calls.iter().flat_map(|c| expected_all(sc, c)).filter(|(e, _)| *e == is_err).map(|(_, f)| f).collect())
         .collect();
     let mut next = vec![0usize; per_thread.len()];
     let mut pos = 0;
